@@ -74,9 +74,11 @@ inductive Cont where
   | discard                             -- `func(err error) {}` of the internal AsyncClose
   deriving DecidableEq, Repr
 
-/-- Result classes of user callbacks. -/
+/-- Result classes of user callbacks. `proto` = the peer broke a framing / fragmentation rule (the errors of
+`verifyFrame`, `handleControlFrame`, `ErrUnexpectedContinuation`, `ErrExpectedContinuation`); `err` = anything else
+(transport errors). -/
 inductive Res where
-  | ok | cancelled | eof | tooBig | err
+  | ok | cancelled | eof | tooBig | proto | err
   deriving DecidableEq, Repr
 
 inductive Action where
@@ -228,16 +230,16 @@ def onFrame (ser : Bool) (s : St) (cb : CbId) (rk : RKind) (f : InFrame) : St :=
   let n := s.rx
   let (s, failed) := handleFrame s f
   match rk with
-  | .frame => push s [.invoke cb (if failed then .err else .ok) true]
+  | .frame => push s [.invoke cb (if failed then .proto else .ok) true]
   | .message room cont =>
-    if failed then push s [.invoke cb .err true]
+    if failed then push s [.invoke cb .proto true]
     else if f.op.isControl then push s [.ctl, .again cb rk]
     else if f.len > room then
       -- the message does not fit: AsyncClose(GoingAway, "payload too big", func(error){}) and report
       push (asyncClose ser s ⟨.closeTooBig n, 23⟩ .discard) [.invoke cb .tooBig true]
     else
       let bad := if cont then f.op != .cont else f.op == .cont
-      if bad then push s [.invoke cb .err true]
+      if bad then push s [.invoke cb .proto true]
       else if f.fin then push s [.invoke cb .ok true]
       else push s [.again cb (.message (room - f.len) true)]
 
